@@ -569,6 +569,7 @@ def extra(ctx):
     r = ctx["result"]
     cases = ctx["cases"]
     # (1) oracle: the implementation did more than the proved model allows => failing input
+    promoted = []
     for d in r["disagreements"]:
         if d.get("op_index", -1) < 0:
             continue
@@ -585,6 +586,48 @@ def extra(ctx):
                 "request_line": _unhex(f.get("raw", "-")), "impl": d["impl"], "expected": d["model"],
                 "case_lines": d.get("case_lines", []),
             })
+            promoted.append(id(d))
+    # a disagreement that is a failing input is reported once, as such (not again as a broken tie)
+    r["disagreements"][:] = [d for d in r["disagreements"] if id(d) not in promoted]
+    # (1b) the property's own statement evaluated on the implementation's answers, independently of the model
+    #      and of the regenerated tables (so that a table edited in the code cannot talk the check round):
+    #      in the exhaustive cases the generator knows what each credential is.
+    try:
+        tables = json.load(open(TABLES))
+        debug_class = {h["name"] for m in tables["modules"] if m["module"] in ("debug", "variables") for h in m["handlers"]}
+    except Exception:
+        debug_class = set()
+    INVALID = ("none", "wrong", "near", "empty", "expired", "revoked")
+    for c in cases:
+        world = next((l for l in c.lines if l.startswith("world ")), None)
+        if not world or not c.ops:
+            continue
+        wf = _fields(world)
+        op, impl = c.ops[0]
+        if not op or not op.startswith("req "):
+            continue
+        f = _fields(op)
+        cred = f.get("cred", "-")
+        if cred == "-":
+            continue
+        cls, fx = _class_of(impl)
+        t = _unhex(f.get("type", "-"))
+        why = None
+        token = wf.get("token", "none")
+        if token not in ("none", "s-") and cred in INVALID and (cls != "unauthorized" or fx):
+            why = f"auth token configured, credential '{cred}' is not valid, yet the reply is '{impl}' (must be the bare unauthorized error, no effect)"
+        elif wf.get("pairing") == "1" and cred == "pv" and fx:
+            why = f"a viewer-role pairing token changed {sorted(fx)} with request '{t}' (every mutating request must require more than viewer)"
+        elif wf.get("debug") == "0" and t in debug_class and (cls == "handled" or fx):
+            why = f"debug-class request '{t}' was executed while debugging is disabled: '{impl}'"
+        if why and len(res["oracle_failures"]) < 40:
+            res["oracle_failures"].append({
+                "what": why, "case": c.n, "seed": ctx["seed"], "tier": ctx["tier"], "op": op,
+                "request_line": _unhex(f.get("raw", "-")), "impl": impl, "world": world, "case_lines": c.lines,
+            })
+            # reported as a failing input; not again as a model disagreement
+            r["disagreements"][:] = [d for d in r["disagreements"] if d.get("case") != c.n]
+
     # (2) the classification is validated only if every dispatched name was seen handled, every mutating name
     #     was seen changing a probe, and every gate was seen refusing
     p = subprocess.run([vlib.DRIVER, "c18", "classes"], stdin=subprocess.DEVNULL, stdout=subprocess.PIPE, text=True)
@@ -661,6 +704,27 @@ def extra(ctx):
     reproduced("C18-debug-evaluate-self-deadlock", "debug-evaluate:hang",
                "debug.evaluate with a parsable expression never answers and leaves the metadata mutex locked")
     return res
+
+
+def replay(obj):
+    """./check.py C18 --replay replays/C18-xxxx.json : re-run exactly that case against the current tree."""
+    import sys
+    import check
+    if "case" not in obj or obj.get("case") in (None, "-"):
+        print(json.dumps(obj, indent=1)[:4000])
+        print("this replay names a broken obligation, not an input; re-run the check itself")
+        return 1
+    mod = sys.modules[__name__]
+    r = check.standard_run(mod, obj.get("tier") or "quick", int(obj.get("seed") or 1), only=int(obj["case"]))
+    for d in r["oracle_failures"]:
+        print(f"case {d['case']}: {d['what']}\n  line : {d.get('request_line')}\n  impl : {d.get('impl')}")
+    for d in r["disagreements"]:
+        print(f"case {d['case']} op {d['op_index']}: {d['op'][:200]}\n  impl : {d['impl']}\n  model: {d['model']}")
+    bad = bool(r["oracle_failures"] or r["disagreements"] or r["failures"])
+    for f in r["failures"]:
+        print("failure:", f[:400])
+    print("replay:", "still fails" if bad else "passes")
+    return 1 if bad else 0
 
 
 if __name__ == "__main__":
